@@ -108,7 +108,7 @@ type jmsg struct {
 }
 
 type jop struct {
-	K      string `json:"k"` // recv tree done
+	K      string `json:"k"` // recv tree done elapse (the grace period of the tree store elapses; needs input.ShortStore)
 	P      int    `json:"p,omitempty"`
 	Cfg    bool   `json:"cfg,omitempty"`
 	M      *jmsg  `json:"m,omitempty"`
@@ -130,8 +130,11 @@ type input struct {
 	Variant string `json:"variant,omitempty"`
 	// Continue: keep going after a leaked mutex / failed canary (default: the history
 	// ends at the first operation that breaks the property)
-	Continue bool  `json:"continue,omitempty"`
-	Ops      []jop `json:"ops"`
+	Continue bool `json:"continue,omitempty"`
+	// ShortStore: treeStorage.timeout is shortened to storeGrace (hook VerifSetTreeTimeout)
+	// before the first operation, so that an "elapse" operation can wait it out
+	ShortStore bool  `json:"shortstore,omitempty"`
+	Ops        []jop `json:"ops"`
 }
 
 // per-operation observation, produced by the worker
@@ -980,6 +983,9 @@ func (w *world) track(in *input) {
 	}
 }
 
+// grace period of the tree store in histories with ShortStore (production: 10 min)
+const storeGrace = 100 * time.Millisecond
+
 func (w *world) exec(i int, op jop, prior []jop) (o *obs) {
 	o = &obs{Index: i}
 	o.Tag = opTag(op, prior, w)
@@ -1014,6 +1020,9 @@ func (w *world) exec(i int, op jop, prior []jop) (o *obs) {
 		}
 	}
 	switch op.K {
+	case "elapse":
+		// every removal scheduled so far fires (the model's [elapse])
+		time.Sleep(5 * storeGrace)
 	case "tree":
 		run(func() { w.ov.RegisterTree(w.trees[op.Tree]) })
 	case "done":
@@ -1337,13 +1346,15 @@ func msgTerm(m *jmsg) string {
 
 func opTerm(op jop, nilFirst bool) string {
 	switch op.K {
+	case "elapse":
+		return "XElapse"
 	case "tree":
 		tm := genuineTM(op.Tree)
-		return fmt.Sprintf("(LocalTree (mkTree %d %s %s))", op.Tree, roTerm(genuineRO()), nodeTerm(tm.Ch[0]))
+		return fmt.Sprintf("(XOp (LocalTree (mkTree %d %s %s)))", op.Tree, roTerm(genuineRO()), nodeTerm(tm.Ch[0]))
 	case "done":
-		return "(LocalDone " + tokTerm(op.Tok) + ")"
+		return "(XOp (LocalDone " + tokTerm(op.Tok) + "))"
 	}
-	return fmt.Sprintf("(Recv %d %s %s %s)", op.P, lib.Bool(op.Cfg), lib.Bool(nilFirst), msgTerm(op.M))
+	return fmt.Sprintf("(XOp (Recv %d %s %s %s))", op.P, lib.Bool(op.Cfg), lib.Bool(nilFirst), msgTerm(op.M))
 }
 
 func expectTerm(op jop) string {
@@ -1445,6 +1456,9 @@ func runCase(in *input, emit func(workerOut)) {
 	// shut the servers down in the background: the next case has its own network
 	defer func() { go w.close() }()
 	w.track(in)
+	if in.ShortStore {
+		w.ov.VerifSetTreeTimeout(storeGrace)
+	}
 	delivered := map[string]bool{}
 	for i, op := range in.Ops {
 		o := w.exec(i, op, in.Ops[:i])
@@ -2224,6 +2238,21 @@ func corpus() []interface{} {
 		ins = append(ins, in)
 	}
 	recv := func(p int, m *jmsg) jop { return jop{K: "recv", P: p, M: m} }
+	// two runs on tree 1, one finished (round 10) and one running (round 11); a late /
+	// replayed message for the finished run; the grace period of the tree store elapses;
+	// the tree request must still be answered and the running instance still be served
+	for _, netMode := range []bool{false, true} {
+		for _, late := range []string{"ping", "other"} {
+			in := input{Name: "late-" + late + "-to-finished-run-then-store-timeout", State: "mixed", Net: netMode, ShortStore: true,
+				Ops: statePrefix("mixed")}
+			live := legitPing(1, 11, "ping")
+			live.Canary, live.XTok, live.XFrom = "run", legitTok(1, 11), parentOfX(1)
+			in.Ops = append(in.Ops, legitPing(1, 10, late), jop{K: "elapse"},
+				jop{K: "recv", P: 3, M: &jmsg{T: "reqtree", Tree: 1, Ver: 1}, Canary: "reqtree"}, live, jop{K: "elapse"})
+			in.Ops = append(in.Ops, canaries(netMode)...)
+			ins = append(ins, in)
+		}
+	}
 	for _, netMode := range []bool{false, true} {
 		for _, st := range []string{"idle", "midrun", "done"} {
 			hist("canaries-only", st, netMode)
